@@ -14,6 +14,7 @@ package verifcheck
 import (
 	"fmt"
 	"path/filepath"
+	"sync/atomic"
 	"testing"
 	"time"
 
@@ -459,6 +460,340 @@ func TestVerif_C14_order(t *testing.T) {
 	if !quick {
 		col.SetExhaustive(true)
 	}
+	if col.Failed() {
+		t.Fail()
+	}
+}
+
+// ---------------------------------------------------------------------------------------------
+// part "overlap": a second admin request (snapshot or compaction) arrives while the first one is
+// parked at one of its phase boundaries, with client writes before and after the second request.
+// The second request may be refused, may wait, or may run: whatever it does, every acknowledged
+// write must be present after Close/Open and the state read before Close must equal the state
+// read after Open.
+
+type c14OverlapCell struct {
+	A    string `json:"a"`    // admin operation that is parked
+	PA   int    `json:"pa"`   // 1-based index of the point of A at which it is parked
+	B    string `json:"b"`    // admin operation requested meanwhile
+	Op   string `json:"op"`   // client write kind
+	When string `json:"when"` // "before": the write is issued before B is requested; "after": after B returned (or was found blocked)
+}
+
+var c14OverlapOps = []string{"kvset", "vadd", "vdel", "vmeta", "glink", "vbatch"}
+
+func c14OverlapAllCells() []c14OverlapCell {
+	var out []c14OverlapCell
+	for _, a := range []string{"snapshot", "rewrite"} {
+		for pa := 1; pa <= len(c14OrderPoints[a]); pa++ {
+			for _, b := range []string{"snapshot", "rewrite"} {
+				for _, op := range c14OverlapOps {
+					for _, w := range []string{"before", "after"} {
+						out = append(out, c14OverlapCell{A: a, PA: pa, B: b, Op: op, When: w})
+					}
+				}
+			}
+		}
+	}
+	return out
+}
+
+func (c c14OverlapCell) String() string {
+	return fmt.Sprintf("%s parked at %s, %s requested meanwhile, client %s issued %s that request (plus a KVSet after it)", c.A, c14OrderPoints[c.A][c.PA-1], c.B, c.Op, c.When)
+}
+
+func c14OverlapRun(c c14OverlapCell) (msg string, labels []string) {
+	dir, cleanup := verifkit.TempDir("c14v")
+	defer cleanup()
+	data := filepath.Join(dir, "data")
+	e, err := engine.Open(engineOpts(data))
+	if err != nil {
+		return "harness: " + err.Error(), nil
+	}
+	closed := false
+	var released atomic.Bool
+	adminGo := make(chan struct{}, 32)
+	defer func() {
+		released.Store(true)
+		for i := 0; i < 16; i++ {
+			select {
+			case adminGo <- struct{}{}:
+			default:
+			}
+		}
+		SetExtraHook(nil)
+		if !closed {
+			e.Close()
+		}
+	}()
+	for _, err := range []error{
+		e.VCreate("i0", distance.Euclidean, 16, 200, distance.Float32, "", nil, nil, nil),
+		e.VAdd("i0", "a", []float32{1, 0}, map[string]any{"s": "x"}),
+		e.VAdd("i0", "b", []float32{0, 1}, nil),
+		e.VAdd("i0", "c", []float32{1, 1}, map[string]any{"n": 1.0}),
+		e.VLink("i0", "a", "b", "r", "", 1, nil),
+		e.KVSet("k0", []byte("v0")),
+		e.AOF.Flush(),
+	} {
+		if err != nil {
+			return "harness: fixture: " + err.Error(), nil
+		}
+	}
+	points := c14OrderPoints[c.A]
+	adminAt := make(chan int, 32)
+	var parkedGoroutine atomic.Int64 // only the first goroutine that reaches a point of A is parked (B may be of the same kind)
+	SetExtraHook(func(name string) {
+		if released.Load() {
+			return
+		}
+		for i, p := range points {
+			if p == name {
+				if i == 0 {
+					if !parkedGoroutine.CompareAndSwap(0, 1) {
+						return // a second run of the same admin kind (B): never parked
+					}
+				}
+				adminAt <- i + 1
+				<-adminGo
+				return
+			}
+		}
+	})
+	run := func(kind string) error {
+		if kind == "snapshot" {
+			return e.SaveSnapshot()
+		}
+		return e.RewriteAOF()
+	}
+	aDone, bDone := make(chan error, 1), make(chan error, 1)
+	go func() { aDone <- run(c.A) }()
+	for pos := 1; pos <= c.PA; pos++ {
+		if pos >= 2 {
+			adminGo <- struct{}{}
+		}
+		select {
+		case got := <-adminAt:
+			if got != pos {
+				return fmt.Sprintf("harness: %s reached point %d, expected %d", c.A, got, pos), labels
+			}
+		case err := <-aDone:
+			return fmt.Sprintf("harness: %s finished before point %d: %v", c.A, pos, err), labels
+		case <-time.After(20 * time.Second):
+			return fmt.Sprintf("%s did not reach %s within 20 s", c.A, points[pos-1]), labels
+		}
+	}
+	type pend struct {
+		name string
+		ch   chan error
+		err  error
+		done bool
+	}
+	var writes []*pend
+	issue := func(name string, f func() error) {
+		p := &pend{name: name, ch: make(chan error, 1)}
+		go func() { p.ch <- f() }()
+		select {
+		case p.err = <-p.ch:
+			p.done = true
+		case <-time.After(c14OrderWait):
+			labels = append(labels, name+" blocked while "+c.A+" is parked")
+		}
+		writes = append(writes, p)
+	}
+	theWrite := func() error {
+		switch c.Op {
+		case "kvset":
+			return e.KVSet("k1", []byte("v1"))
+		case "vadd":
+			return e.VAdd("i0", "d", []float32{2, 2}, map[string]any{"s": "new"})
+		case "vdel":
+			return e.VDelete("i0", "c")
+		case "vmeta":
+			return e.VSetMetadata("i0", "a", map[string]any{"t": "merged"})
+		case "glink":
+			return e.VLink("i0", "b", "c", "r", "", 1, nil)
+		case "vbatch":
+			return e.VAddBatch("i0", []types.BatchObject{{Id: "e", Vector: []float32{5, 5}}, {Id: "f", Vector: []float32{6, 6}, Metadata: map[string]any{"s": "f"}}})
+		}
+		return fmt.Errorf("unknown op")
+	}
+	if c.When == "before" {
+		issue(c.Op, theWrite)
+	}
+	var bErr error
+	bReturned := false
+	go func() { bDone <- run(c.B) }()
+	select {
+	case bErr = <-bDone:
+		bReturned = true
+		if bErr != nil {
+			labels = append(labels, "second request refused")
+		} else {
+			labels = append(labels, "second request ran")
+		}
+	case <-time.After(c14OrderWait):
+		labels = append(labels, "second request waits")
+	}
+	if c.When == "after" {
+		issue(c.Op, theWrite)
+	}
+	issue("kvset-after", func() error { return e.KVSet("k2", []byte("v2")) })
+	// let A finish
+	released.Store(true)
+	adminGo <- struct{}{}
+	var aErr error
+	select {
+	case aErr = <-aDone:
+	case <-time.After(20 * time.Second):
+		return fmt.Sprintf("%s did not finish within 20 s after being released", c.A), labels
+	}
+	if !bReturned {
+		select {
+		case bErr = <-bDone:
+		case <-time.After(20 * time.Second):
+			return fmt.Sprintf("the second request (%s) did not return within 20 s after %s finished", c.B, c.A), labels
+		}
+	}
+	for _, p := range writes {
+		if !p.done {
+			select {
+			case p.err = <-p.ch:
+				p.done = true
+			case <-time.After(20 * time.Second):
+				return fmt.Sprintf("client write %s did not return within 20 s after both admin operations finished", p.name), labels
+			}
+		}
+		if p.err != nil {
+			return fmt.Sprintf("client write %s rejected: %v", p.name, p.err), labels
+		}
+	}
+	SetExtraHook(nil)
+	if aErr != nil {
+		labels = append(labels, "first admin op returned an error")
+	}
+	_ = bErr
+	if c.Op == "vdel" {
+		deadline := time.Now().Add(2 * time.Second)
+		for time.Now().Before(deadline) {
+			if len(e.DB.GetAllRelations("i0::c", "in")) == 0 && len(e.DB.GetAllRelations("i0::c", "out")) == 0 {
+				break
+			}
+			time.Sleep(time.Millisecond)
+		}
+		time.Sleep(2 * time.Millisecond)
+	}
+	verify := func(e *engine.Engine) string {
+		if v, ok := e.KVGet("k2"); !ok || string(v) != "v2" {
+			return fmt.Sprintf("acknowledged KVSet(k2) issued after the second admin request is missing (got %q, %v)", v, ok)
+		}
+		if v, ok := e.KVGet("k0"); !ok || string(v) != "v0" {
+			return "fixture key k0 lost"
+		}
+		switch c.Op {
+		case "kvset":
+			if v, ok := e.KVGet("k1"); !ok || string(v) != "v1" {
+				return fmt.Sprintf("acknowledged KVSet(k1) is missing (got %q, %v)", v, ok)
+			}
+		case "vadd":
+			vd, err := e.VGet("i0", "d")
+			if err != nil || vd.Metadata["s"] != "new" {
+				return fmt.Sprintf("acknowledged VAdd(i0,d) is missing or incomplete: %v %v", vd.Metadata, err)
+			}
+		case "vdel":
+			if _, err := e.VGet("i0", "c"); err == nil {
+				return "acknowledged VDelete(i0,c) is undone"
+			}
+		case "vmeta":
+			vd, err := e.VGet("i0", "a")
+			if err != nil || vd.Metadata["t"] != "merged" || vd.Metadata["s"] != "x" {
+				return fmt.Sprintf("acknowledged VSetMetadata(i0,a) is missing: %v %v", vd.Metadata, err)
+			}
+		case "glink":
+			if l, _ := e.VGetLinks("i0", "b", "r"); len(l) != 1 || l[0] != "c" {
+				return fmt.Sprintf("acknowledged VLink(b-r->c) is missing (links %v)", l)
+			}
+		case "vbatch":
+			for _, id := range []string{"e", "f"} {
+				vd, err := e.VGet("i0", id)
+				if err != nil || (id == "f" && vd.Metadata["s"] != "f") {
+					return fmt.Sprintf("item %s of the acknowledged VAddBatch is missing or incomplete: %v %v", id, vd.Metadata, err)
+				}
+			}
+		}
+		return ""
+	}
+	if m := verify(e); m != "" {
+		return "live, before the restart: " + m, labels
+	}
+	probe := map[string][]string{"i0": {"a", "b", "c", "d", "e", "f"}}
+	before, err := TakeDump(e, probe)
+	if err != nil {
+		return "live dump: " + err.Error(), labels
+	}
+	if err := e.Close(); err != nil {
+		closed = true
+		return "Close: " + err.Error(), labels
+	}
+	closed = true
+	e2, err := engine.Open(engineOpts(data))
+	if err != nil {
+		return "Open after the schedule: " + err.Error(), labels
+	}
+	defer e2.Close()
+	if m := verify(e2); m != "" {
+		return "after Close/Open: " + m, labels
+	}
+	after, err := TakeDump(e2, probe)
+	if err != nil {
+		return "dump after Open: " + err.Error(), labels
+	}
+	if d := DiffDumps(before, after); d != "" {
+		return "state before Close and after Open differ: " + d, labels
+	}
+	return "", labels
+}
+
+func TestVerif_C14_overlap(t *testing.T) {
+	col := verifkit.New("C14", "overlap",
+		"ENUMERATION of forced schedules with two admin requests: first admin operation (SaveSnapshot, RewriteAOF) parked at each of its 6 phase boundaries x second admin request (SaveSnapshot, RewriteAOF) issued meanwhile (it may be refused, wait or run) x client write kind (kvset vadd vdel vmeta glink vbatch) issued before or after the second request, plus a KVSet after it = 288 cells; then the first operation is released, everything is awaited, Close/Open; oracle = every acknowledged write present live and after the restart, full API-visible state equal before Close and after Open; non-trivial = every cell (a write is always issued inside the first admin operation)")
+	defer col.Finish()
+	if rp := verifkit.ReplayPath(); rp != "" {
+		if verifkit.ReplayPart(rp) != "overlap" {
+			return
+		}
+		var c c14OverlapCell
+		if err := verifkit.LoadReplay(rp, &c); err != nil {
+			t.Fatal(err)
+		}
+		col.Case(c, true, "replay")
+		for i := 0; i < 3; i++ {
+			if msg, _ := c14OverlapRun(c); msg != "" {
+				col.Fail(c, "%s\n%s", msg, c.String())
+				t.Fatal(msg)
+			}
+		}
+		return
+	}
+	cells := c14OverlapAllCells()
+	for i, c := range cells {
+		if i%verifkit.Shards() != verifkit.Shard() {
+			continue
+		}
+		col.InFlight(c)
+		msg, labels := c14OverlapRun(c)
+		col.Landed()
+		col.Case(c, true, append([]string{"A=" + c.A, "B=" + c.B, c.Op}, uniq(labels)...)...)
+		if msg != "" {
+			if len(msg) >= 8 && msg[:8] == "harness:" {
+				col.Note("harness: " + c.String() + ": " + msg)
+				t.Errorf("%s: %s", c.String(), msg)
+				continue
+			}
+			col.FailDistinct(c, "%s\nschedule: %s", msg, c.String())
+		}
+	}
+	col.Extra("cells_total", len(cells))
+	col.SetExhaustive(true)
 	if col.Failed() {
 		t.Fail()
 	}
